@@ -173,13 +173,13 @@ func apply[S ~[]E, E selectable](list S, submissionRequirement SubmissionRequire
 	// take max if it is set, max is optional (a pick rule with only min, or without count/min/max, is valid)
 	index := 0
 	for _, member := range list {
+		if submissionRequirement.Max != nil && index == *submissionRequirement.Max {
+			// we have enough to fulfill the max requirement, stop (checked before taking a member, so max=0 takes none)
+			break
+		}
 		if !member.empty() {
 			returnVCs = append(returnVCs, member.flatten()...)
 			index++
-		}
-		if submissionRequirement.Max != nil && index == *submissionRequirement.Max {
-			// we have enough to fulfill the max requirement, stop
-			break
 		}
 	}
 	return returnVCs, nil
